@@ -1,0 +1,27 @@
+//! Verification hooks (`--cfg folo_verif` only): never compiled into normal builds.
+//!
+//! Named yield points at the places that matter for the shutdown-versus-first-spawn window.
+//! A harness installs a callback that may block the calling thread at a point so that a
+//! generated order over the points can be forced.
+
+use std::sync::atomic::{AtomicUsize, Ordering};
+
+/// Called with the name of every yield point the calling thread passes.
+pub type PointHook = fn(name: &'static str);
+
+static POINT_HOOK: AtomicUsize = AtomicUsize::new(0);
+
+/// Installs (or with `None` removes) the yield point callback.
+pub fn install_point_hook(hook: Option<PointHook>) {
+    POINT_HOOK.store(hook.map_or(0, |h| h as usize), Ordering::SeqCst);
+}
+
+#[inline]
+pub(crate) fn point(name: &'static str) {
+    let raw = POINT_HOOK.load(Ordering::Acquire);
+    if raw != 0 {
+        // SAFETY: Only ever set from a `PointHook` function pointer.
+        let hook = unsafe { std::mem::transmute::<usize, PointHook>(raw) };
+        hook(name);
+    }
+}
